@@ -309,4 +309,336 @@ theorem split_at (R : List Run) (i e : Nat) (hi : i < e) (he : e ≤ R.length) :
       simp
   · simp; omega
 
+/-- dropping runs `(i, e)` that all have the colour of run `i` does not change the abstraction -/
+theorem colourAt_take_drop (R : List Run) (i e : Nat) (c : Colour) (hi : i < e) (he : e ≤ R.length)
+    (hs : Sorted R) (hc : ∀ j, i ≤ j → j < e → ∃ o, R[j]? = some (o, c)) :
+    (∀ p x, colourAt (R.take (i + 1) ++ R.drop e) p x = colourAt R p x) ∧ Sorted (R.take (i + 1) ++ R.drop e) ∧
+      ∀ r ∈ R.take (i + 1) ++ R.drop e, r ∈ R := by
+  obtain ⟨A, g, F, Z, h1, h2, h3, _⟩ := split_at R i e hi he
+  have hcol : ∀ r ∈ g :: F, r.2 = c := by
+    intro r hr
+    obtain ⟨j, hj1, hj2, hj3⟩ := h3 r hr
+    obtain ⟨o, ho⟩ := hc j hj1 hj2
+    rw [ho] at hj3
+    simp only [Option.some.injEq] at hj3
+    rw [← hj3]
+  rw [h2]
+  refine ⟨?_, ?_, ?_⟩
+  · intro p x
+    rw [h1] at hs ⊢
+    apply colourAt_drop_same _ _ _ _ _ _ hs
+    intro r hr
+    rw [hcol r (by simp [hr]), hcol g (by simp)]
+  · rw [h1] at hs
+    unfold Sorted at *
+    exact List.Pairwise.sublist
+      (List.Sublist.append (List.Sublist.refl A) ((List.sublist_append_right F Z).cons_cons g)) hs
+  · intro r hr
+    rw [h1]
+    simp only [List.mem_append, List.mem_cons] at hr ⊢
+    rcases hr with h | h | h
+    · exact Or.inl h
+    · exact Or.inr (Or.inl h)
+    · exact Or.inr (Or.inr (Or.inr h))
+
+theorem Sorted.recolour {pre post : List Run} {o : Nat} {c c' : Colour} (h : Sorted (pre ++ (o, c) :: post)) :
+    Sorted (pre ++ (o, c') :: post) := by
+  unfold Sorted at *
+  rw [List.pairwise_append, List.pairwise_cons] at *
+  obtain ⟨h1, ⟨h2, h3⟩, h4⟩ := h
+  refine ⟨h1, ⟨h2, h3⟩, ?_⟩
+  intro r hr r' hr'
+  simp only [List.mem_cons] at hr'
+  rcases hr' with rfl | hr'
+  · exact h4 r hr (o, c) (by simp)
+  · exact h4 r hr r' (by simp [hr'])
+
+/-! ### the specification side -/
+
+theorem cand_iff (s : SendSpec) (flow x : Nat) : s.cand flow x = true ↔ sendable flow (s.colour x) := by
+  unfold SendSpec.cand sendable
+  cases s.colour x <;> simp <;> omega
+
+theorem win_eq (m : BufMap) (s : SendSpec) (hsize : s.size = m.size) (hwin : m.size ≤ s.maxData) :
+    s.win = m.size := by
+  unfold SendSpec.win; omega
+
+theorem firstCand_none (m : BufMap) (s : SendSpec) (flow : Nat) (hsize : s.size = m.size)
+    (hcol : ∀ x, s.colour x = m.abs x) (hwin : m.size ≤ s.maxData)
+    (hno : ∀ r ∈ m.runs, ¬ sendable flow r.2) : s.firstCand flow = s.win := by
+  unfold SendSpec.firstCand
+  apply least_eq' _ _ _ (Nat.le_refl _)
+  · intro x hx
+    have hx' : x < m.size := by rw [win_eq m s hsize hwin] at hx; exact hx
+    cases h : s.cand flow x with
+    | false => rfl
+    | true =>
+      exfalso
+      rw [cand_iff, hcol, abs_of_lt _ _ hx'] at h
+      rcases colourAt_mem m.runs .recved x with h1 | ⟨r, hr, h1⟩
+      · rw [h1] at h; simp [sendable] at h
+      · rw [← h1] at h; exact hno r hr h
+  · intro h; omega
+
+theorem firstCand_some (m : BufMap) (s : SendSpec) (flow : Nat) (pre post : List Run) (o : Nat) (c : Colour)
+    (hwf : WF m) (hsize : s.size = m.size)
+    (hcol : ∀ x, s.colour x = m.abs x) (hwin : m.size ≤ s.maxData)
+    (hruns : m.runs = pre ++ (o, c) :: post)
+    (hpre : ∀ r ∈ pre, ¬ sendable flow r.2) (hc : sendable flow c) :
+    s.firstCand flow = o ∧ o < s.win := by
+  have ho : o < m.size := hwf.lt_size (o, c) (by simp [hruns])
+  have hw := win_eq m s hsize hwin
+  have hsorted : Sorted (pre ++ (o, c) :: post) := hruns ▸ hwf.sorted
+  refine ⟨least_eq' _ _ _ (by omega) ?_ ?_, by omega⟩
+  · intro x hx
+    cases h : s.cand flow x with
+    | false => rfl
+    | true =>
+      exfalso
+      rw [cand_iff, hcol, abs_of_lt _ _ (by omega), hruns,
+        colourAt_append_gt pre _ _ x (by simp; omega)] at h
+      rcases colourAt_mem pre .recved x with h1 | ⟨r, hr, h1⟩
+      · rw [h1] at h; simp [sendable] at h
+      · rw [← h1] at h; exact hpre r hr h
+  · intro _
+    rw [cand_iff, hcol, abs_of_lt _ _ ho, hruns, colourAt_run pre post o c .recved o
+      (fun r hr => Nat.le_of_lt (Sorted.lt hsorted r hr (o, c) (by simp))) (Nat.le_refl _)
+      (fun r hr => Sorted.head_lt (Sorted.append_right hsorted) r (by
+        cases post with
+        | nil => simp at hr
+        | cons r' post => simp at hr; subst hr; simp))]
+    exact hc
+
+theorem pick_some (m : BufMap) (pred : Nat → Option Nat) (flow win : Nat) (pre post : List Run) (start : Nat)
+    (color : Colour) (available : Nat) (sg : Sig)
+    (hwf : WF m) (hwin : m.size ≤ win) (h62 : m.size < 2 ^ 62)
+    (hruns : m.runs = pre ++ (start, color) :: post)
+    (hfind : findPick flow win m.runs 0 {} = (some (pre.length, (start, color)), sg))
+    (hpred : pred start = some available) (hav : 0 < available) (hav63 : available < 2 ^ 63)
+    (hsend : sendable flow color) :
+    ∃ runs' b, pick m pred flow win = .ok ({ m with runs := runs' }, .range start b (color == .pending)) ∧
+      Sorted runs' ∧ (∀ r ∈ runs', r.1 < m.size) ∧ start < b ∧ b ≤ m.size ∧
+      (∀ r, post.head? = some r → b ≤ r.1) ∧
+      b - start ≤ available ∧ (color = .pending → b - start ≤ flow) ∧
+      ∀ x, x < m.size → colourAt runs' .recved x =
+        if start ≤ x ∧ x < b then .flighting else colourAt m.runs .recved x := by
+  have hstart : start < m.size := hwf.lt_size (start, color) (by simp [hruns])
+  have hsorted : Sorted (pre ++ (start, color) :: post) := hruns ▸ hwf.sorted
+  have hpre_lt : ∀ r ∈ pre, r.1 < start := fun r hr => Sorted.lt hsorted r hr (start, color) (by simp)
+  have hpost_gt : ∀ r ∈ post, start < r.1 := Sorted.head_lt (Sorted.append_right hsorted)
+  have hlen : pre.length < m.runs.length := by simp [hruns]
+  have hset : m.runs.set pre.length (start, .flighting) = pre ++ (start, .flighting) :: post := by
+    simp [hruns]
+  unfold pick
+  rw [hfind]
+  dsimp only
+  rw [hpred]
+  dsimp only
+  rw [setAt_ok _ _ _ hlen, hset]
+  simp only [pure_bind]
+  generalize hal : (if color = Colour.lost then available else min available flow) = allowance
+  have hal1 : 0 < allowance ∧ allowance ≤ available ∧ (color = .pending → allowance ≤ flow) := by
+    subst hal
+    rcases hsend with h | ⟨h, hf⟩ <;> subst h <;> simp <;> omega
+  have hP : (pre ++ [(start, Colour.flighting)]).length = pre.length + 1 := by simp
+  have hR1 : pre ++ (start, Colour.flighting) :: post = (pre ++ [(start, Colour.flighting)]) ++ post := by simp
+  have hnext : (pre ++ (start, Colour.flighting) :: post)[pre.length + 1]? = post.head? := by
+    rw [List.getElem?_append_right (by omega)]
+    cases post <;> simp
+  rw [hnext]
+  generalize hE : min (match post.head? with | some (o, _) => o | none => m.size) win = E
+  have hE' : start < E ∧ E ≤ m.size ∧ (∀ r, post.head? = some r → E = r.1) ∧ (post = [] → E = m.size) := by
+    subst hE
+    cases post with
+    | nil => simp; omega
+    | cons r post =>
+      have h1 := hpost_gt r (by simp)
+      have h2 := hwf.lt_size r (by simp [hruns])
+      simp
+      refine ⟨by omega, by omega, by omega⟩
+  obtain ⟨hE1, hE2, hE3, hE4⟩ := hE'
+  obtain ⟨hi_le, hi_fl⟩ := sameBefore_spec (pre ++ (start, .flighting) :: post) .flighting pre.length
+  generalize sameBefore (pre ++ (start, .flighting) :: post) .flighting pre.length = i at *
+  have hR1len : (pre ++ (start, Colour.flighting) :: post).length = pre.length + 1 + post.length := by
+    simp; omega
+  rw [if_neg (by omega)]
+  have hfl : ∀ j, i ≤ j → j < pre.length + 1 →
+      ∃ o, (pre ++ (start, Colour.flighting) :: post)[j]? = some (o, Colour.flighting) := by
+    intro j h1 h2
+    by_cases hj : j < pre.length
+    · exact hi_fl j h1 hj
+    · have : j = pre.length := by omega
+      subst this
+      exact ⟨start, by simp⟩
+  have hR1s : Sorted (pre ++ (start, Colour.flighting) :: post) := Sorted.recolour hsorted
+  have hR1lt : ∀ r ∈ pre ++ (start, Colour.flighting) :: post, r.1 < m.size := by
+    intro r hr
+    simp only [List.mem_append, List.mem_cons] at hr
+    rcases hr with h | rfl | h
+    · exact hwf.lt_size r (by simp [hruns, h])
+    · exact hstart
+    · exact hwf.lt_size r (by simp [hruns, h])
+  by_cases hsp : start + allowance < E
+  · rw [if_pos hsp]
+    have hR : pre ++ (start, Colour.flighting) :: (start + allowance, color) :: post =
+        (pre ++ [(start, .flighting)]) ++ (start + allowance, color) :: post := by simp
+    have hN : (pre ++ (start, Colour.flighting) :: post).take (i + 1) ++
+          (start + allowance, color) :: (pre ++ (start, Colour.flighting) :: post).drop (pre.length + 1) =
+        (pre ++ (start, Colour.flighting) :: (start + allowance, color) :: post).take (i + 1) ++
+          (pre ++ (start, Colour.flighting) :: (start + allowance, color) :: post).drop (pre.length + 1) := by
+      rw [hR1, hR, List.take_append_of_le_length (l₂ := post) (by omega),
+        List.take_append_of_le_length (l₂ := (start + allowance, color) :: post) (by omega),
+        List.drop_left' hP, List.drop_left' hP]
+    refine ⟨(pre ++ (start, Colour.flighting) :: (start + allowance, color) :: post).take (i + 1) ++
+      (pre ++ (start, Colour.flighting) :: (start + allowance, color) :: post).drop (pre.length + 1),
+      start + allowance, ?_, ?_⟩
+    · rw [← hN]
+      by_cases hi : i < pre.length
+      · rw [if_pos hi, setAt_ok _ _ _ (by omega)]
+        simp only [pure_bind]
+        have h1 := L1 (pre ++ (start, .flighting) :: post) i pre.length (start + allowance, color) hi (by omega)
+        by_cases hi2 : i + 1 < pre.length
+        · rw [if_pos hi2] at h1 ⊢
+          rw [drain_ok _ _ _ (by omega) (by simp <;> omega)]
+          simp only [pure_bind]
+          rw [h1]; rfl
+        · rw [if_neg hi2] at h1 ⊢
+          rw [h1]; rfl
+      · have : i = pre.length := by omega
+        subst this
+        rw [if_neg hi, insertAt_ok _ _ _ (by omega)]
+        simp only [pure_bind]
+        rw [if_neg (by omega)]; rfl
+    · have hpostE : ∀ r ∈ post, E ≤ r.1 := by
+        intro r hr
+        cases post with
+        | nil => simp at hr
+        | cons r0 post =>
+          have h0 := hE3 r0 rfl
+          simp only [List.mem_cons] at hr
+          rcases hr with rfl | hr
+          · omega
+          · have := Sorted.head_lt (Sorted.tail (Sorted.append_right hsorted)) r hr
+            omega
+      have hRs : Sorted (pre ++ (start, Colour.flighting) :: (start + allowance, color) :: post) := by
+        unfold Sorted at *
+        rw [List.pairwise_append, List.pairwise_cons] at *
+        obtain ⟨h1, ⟨h2, h3⟩, h4⟩ := hsorted
+        refine ⟨h1, ⟨?_, ?_⟩, ?_⟩
+        · intro r hr
+          simp only [List.mem_cons] at hr
+          rcases hr with rfl | hr
+          · show start < start + allowance
+            omega
+          · exact h2 r hr
+        · rw [List.pairwise_cons]
+          refine ⟨fun r hr => ?_, h3⟩
+          have := hpostE r hr
+          show start + allowance < r.1
+          omega
+        · intro r hr r' hr'
+          have := hpre_lt r hr
+          simp only [List.mem_cons] at hr'
+          rcases hr' with rfl | rfl | hr'
+          · exact this
+          · show r.1 < start + allowance
+            omega
+          · have := hpost_gt r' hr'
+            omega
+      have hRlt : ∀ r ∈ pre ++ (start, Colour.flighting) :: (start + allowance, color) :: post, r.1 < m.size := by
+        intro r hr
+        simp only [List.mem_append, List.mem_cons] at hr
+        rcases hr with h | rfl | rfl | h
+        · exact hwf.lt_size r (by simp [hruns, h])
+        · exact hstart
+        · show start + allowance < m.size
+          omega
+        · exact hwf.lt_size r (by simp [hruns, h])
+      have hRfl : ∀ j, i ≤ j → j < pre.length + 1 →
+          ∃ o, (pre ++ (start, Colour.flighting) :: (start + allowance, color) :: post)[j]? =
+            some (o, Colour.flighting) := by
+        intro j h1 h2
+        obtain ⟨o, ho⟩ := hfl j h1 h2
+        rw [hR1, List.getElem?_append_left (by omega)] at ho
+        exact ⟨o, by rw [hR, List.getElem?_append_left (by omega)]; exact ho⟩
+      obtain ⟨hc1, hc2, hc3⟩ := colourAt_take_drop _ i (pre.length + 1) .flighting (by omega)
+        (by simp) hRs hRfl
+      refine ⟨hc2, fun r hr => hRlt r (hc3 r hr), by omega, by omega, ?_, by omega, ?_, ?_⟩
+      · intro r hr
+        have := hE3 r hr
+        omega
+      · intro h
+        have := hal1.2.2 h
+        omega
+      · intro x _
+        rw [hc1, colourAt_split pre post start (start + allowance) color .flighting .recved x hpre_lt (by omega),
+          hruns]
+  · rw [if_neg hsp]
+    obtain ⟨k, hk1, hk2, hk3⟩ := skipSame_spec .flighting post (pre.length + 1)
+    have hdrop : (pre ++ (start, Colour.flighting) :: post).drop (pre.length + 1) = post := by
+      rw [hR1, List.drop_left' hP]
+    have hma : mergeAfter (pre ++ (start, Colour.flighting) :: post) pre.length .flighting =
+        pure ((pre ++ (start, Colour.flighting) :: post).take (pre.length + 1) ++
+          (pre ++ (start, Colour.flighting) :: post).drop (pre.length + 1 + k)) := by
+      unfold mergeAfter sameAfterP1
+      rw [hdrop, hk1]
+      dsimp only
+      split
+      · exact drain_ok _ _ _ (by omega) (by omega)
+      · have : k = 0 := by omega
+        subst this
+        rw [Nat.add_zero, List.take_append_drop]
+    rw [hma]
+    simp only [pure_bind]
+    refine ⟨(pre ++ (start, Colour.flighting) :: post).take (i + 1) ++
+      (pre ++ (start, Colour.flighting) :: post).drop (pre.length + 1 + k), E, ?_, ?_⟩
+    · have h2 := L2 (pre ++ (start, Colour.flighting) :: post) i pre.length (pre.length + 1 + k) hi_le
+        (by omega) (by omega)
+      by_cases hi : i < pre.length
+      · rw [if_pos hi] at h2 ⊢
+        rw [drain_ok _ _ _ (by omega) (by simp <;> omega)]
+        simp only [pure_bind]
+        rw [h2]; rfl
+      · rw [if_neg hi] at h2 ⊢
+        rw [h2]; rfl
+    · have hfl2 : ∀ j, i ≤ j → j < pre.length + 1 + k →
+          ∃ o, (pre ++ (start, Colour.flighting) :: post)[j]? = some (o, Colour.flighting) := by
+        intro j h1 h2
+        by_cases hj : j < pre.length + 1
+        · exact hfl j h1 hj
+        · rw [hR1, List.getElem?_append_right (by omega), hP]
+          have hj' : j - (pre.length + 1) < post.length := by omega
+          have hmem : post[j - (pre.length + 1)] ∈ post.take k := by
+            rw [List.mem_take_iff_getElem]
+            exact ⟨j - (pre.length + 1), by omega, rfl⟩
+          refine ⟨post[j - (pre.length + 1)].1, ?_⟩
+          rw [List.getElem?_eq_getElem hj', ← hk3 _ hmem]
+      obtain ⟨hc1, hc2, hc3⟩ := colourAt_take_drop _ i (pre.length + 1 + k) .flighting (by omega)
+        (by omega) hR1s hfl2
+      refine ⟨hc2, fun r hr => hR1lt r (hc3 r hr), hE1, hE2, ?_, by omega, ?_, ?_⟩
+      · intro r hr
+        have := hE3 r hr
+        omega
+      · intro h
+        have := hal1.2.2 h
+        omega
+      · intro x hx
+        rw [hc1]
+        split
+        · next h =>
+          exact colourAt_run pre post start .flighting .recved x
+            (fun r hr => by have := hpre_lt r hr; omega) h.1
+            (fun r hr => by rw [← hE3 r hr]; exact h.2)
+        · next h =>
+          rw [hruns]
+          apply colourAt_recolour
+          by_cases hx1 : x < start
+          · exact Or.inl hx1
+          · right
+            cases post with
+            | nil => have := hE4 rfl; omega
+            | cons r post =>
+              have := hE3 r rfl
+              exact ⟨r, rfl, by omega⟩
+
 end GmQuic.BufMap
